@@ -471,7 +471,8 @@ static bool check_OK(const std::string& op, const IProd& A) {
   checked(); hx::count("OK_checks");
   if (A.OK()) return true;
   bool o1 = true, o2 = true; A.comps_OK(o1, o2);
-  violation(KP + op + ".OK_false:" + (!o1 ? "d1" : !o2 ? "d2" : "reduced-flag-stale"), "OK() is false after the operation; " + show_shadow(observe(A)));
+  Shadow s = observe(A); bool e1 = comp_is_empty(s, 0), e2 = comp_is_empty(s, 1);
+  violation(KP + op + ".OK_false:" + (!o1 ? "d1" : !o2 ? "d2" : (e1 != e2) ? "reduced-flag-stale,one-component-empty" : "reduced-flag-stale"), "OK() is false after the operation; " + show_shadow(s));
   return false;
 }
 
@@ -512,7 +513,7 @@ static bool run_mutator(IProd& A, IProd& B, bool alias, const Shadow& SA, const 
   if (m.name == "difference_assign") cls = [&](const Vec& x) { bool y0 = SB.member_comp(0, x), y1 = SB.member_comp(1, x); return std::string((y0 != y1) ? "point-in-one-component-of-subtrahend" : "point-outside-both-components-of-subtrahend") + "," + lost_class(RA, x); };
   else if (!m.argcls.empty() && (m.name.find("affine") != std::string::npos)) cls = [&](const Vec& x) { return lost_class(RA, x) + "," + m.argcls; };
   if (!check_contains(m.name, RA, exp, Ts, cls, "receiver " + show_shadow(SA) + (m.binary ? " argument " + show_shadow(SB) : ""))) return false;
-  if (!rejected && !check_OK(m.name, A)) return false;
+  if (!rejected && coin(50) && !check_OK(m.name, A)) return false;
   if (m.binary && !alias) { Shadow RB = observe(B); if (!check_reduction(m.name, SB, RB, "arg-")) return false; }
   return true;
 }
@@ -595,7 +596,7 @@ static bool run_query(IProd& A, IProd& B, bool alias, const Shadow& SA, const Sh
   Shadow RA = observe(A);
   if (!check_reduction(op, SA, RA, "")) return false;
   if (binary && !alias) { Shadow RB = observe(B); if (!check_reduction(op, SB, RB, "arg-")) return false; }
-  if (!check_OK(op, A)) return false;
+  if (coin(30) && !check_OK(op, A)) return false;
   // definite answers
   checked(); hx::count("answer_checks");
   const bool lp = !g_grid_pair;
@@ -758,7 +759,7 @@ static bool run_ascii(std::vector<IProd*>& pool, int ai, const Shadow& SA, const
   IProd& A = *pool[ai]; const std::string K15 = "C15.prod." + F->inst + ".roundtrip.";
   tr(pre + ".ascii_dump/ascii_load"); hx::count("op.ascii_roundtrip"); checked(); hx::count("ascii_checks");
   if (nontrivial(SA)) hx::distinct(F->inst + "|ascii|" + inter_class(SA));
-  bool into_empty = coin(25); const std::string tcls = into_empty ? ":loaded-into-empty" : ":loaded-into-universe";
+  bool into_empty = coin(10); const std::string tcls = into_empty ? ":loaded-into-empty" : ":loaded-into-universe";
   std::string d1 = A.dump(); Hold L(F->make(rnd(0, 2), into_empty));
   if (!L->load(d1)) { violation(K15 + "load_failed" + tcls, "ascii_load rejected the output of ascii_dump:\n" + d1); return false; }
   std::string d2 = L->dump();
@@ -873,6 +874,6 @@ int main(int argc, char** argv) {
   for (int p = 0; p < 6; ++p) for (int r = 0; r < 5; ++r) g_factories.push_back(factory_of(p, r));
   (void) PAIRS;
   return hx::main_loop(argc, argv, run_case,
-    []() { hx::count("lp_solves", ref::lp_counters().solves); hx::count("lp_pivots", ref::lp_counters().pivots); });
+    []() { hx::count("lp_solves", ref::lp_counters().solves); hx::count("lp_pivots", ref::lp_counters().pivots); for (size_t i = 0; i < g_factories.size(); ++i) delete g_factories[i]; g_factories.clear(); });
 }
 
